@@ -27,6 +27,15 @@ struct SummaryRanges {
     latest_summarizable_delta_idx: Option<usize>,
 }
 
+/// A sale at a loss, superficial or not. Txs within 30 days before such a sale must
+/// not be folded into a summary Tx: the summary Tx is a Buy, and a Buy inside the
+/// sale's superficial loss period would make a loss superficial which was not.
+fn is_loss_sale(delta: &TxDelta) -> bool {
+    delta.is_superficial_loss()
+        || (delta.tx.action() == super::TxAction::Sell
+            && delta.capital_gain.map(|g| is_negative(&g)).unwrap_or(false))
+}
+
 const GET_SUMMARY_RANGE_DELTA_INDICIES_WARN: &str =
     "No transactions in the summary period";
 
@@ -59,7 +68,7 @@ fn get_summary_range_delta_indicies(
         Date::from_calendar_date(3000, time::Month::January, 1).unwrap();
     // for _, delta := range deltas[latestDeltaInSummaryRangeIdx+1:] {
     for delta in &deltas[latest_delta_in_summary_range_idx + 1..] {
-        if delta.is_superficial_loss() {
+        if is_loss_sale(delta) {
             first_superficial_loss_period_day =
                 get_first_day_in_superficial_loss_period(delta.tx.settlement_date);
             tx_in_summary_overlaps_superficial_loss =
@@ -94,7 +103,7 @@ fn get_summary_range_delta_indicies(
                 latest_summarizable_date = Some(delta.tx.settlement_date);
                 break;
             }
-            if delta.is_superficial_loss() {
+            if is_loss_sale(delta) {
                 // We've encountered another superficial loss within the summary
                 // range. This can be affected by previous txs, so we need to now push
                 // up the period where we can't find any txs.
